@@ -55,7 +55,7 @@ ASSUMPTIONS = ["user actions happen only inside directories owned by a git SCM; 
                "processes started by Bob (git gc never runs)",
                "Bob runs inside the harness process; every suspected violation is re-run with the real `bob` script in "
                "fresh processes before it is reported"]
-TIME_BUDGET = {"quick": 240, "thorough": 1500}
+TIME_BUDGET = {"quick": 200, "thorough": 1500}
 BATCH = 16     # (Hypothesis starts every batch with the minimal example: small batches waste cases)
 
 WS = "dev/src/root/1/workspace"
@@ -438,7 +438,7 @@ class Run:
         raise Excluded()       # ctx.fail returned: listed known finding or already reported signature
 
     # ---- Bob invocations
-    def invoke(self, variant, final=False):
+    def invoke(self, variant):
         self.render(self.W)
         argv = BOB_VARIANTS[variant]
         before = self.scm_dirs_present()
@@ -564,7 +564,7 @@ class Run:
             else:
                 self.sim.edit(op); self.log.append("edit %s" % (op,))
                 self.labels.add("edit:" + k)
-        rW = self.invoke("dev", final=True)
+        rW = self.invoke("dev")
         t = time.time()
         try:
             self.check_A(rW)
@@ -709,7 +709,12 @@ def shard(ctx):
 
 
 def replay(ctx, case):
-    run_case(ctx, case, confirm=True)
+    # in-process first (cheap: corpus seeds that pass need no fresh processes); a failure is confirmed with the real
+    # `bob` script in fresh processes, and only that result is reported
+    try:
+        run_case(ctx, case)
+    except Violation:
+        run_case(ctx, case, confirm=True)
 
 
 # ------------------------------------------------------------------------------------------- known findings
